@@ -17,10 +17,17 @@ def seams():
     return _SEAMS
 
 
+# settings of the second ("alt") pass of a check, set by vf/child.py before the workers are forked
+ALT_SETTINGS = {"debug": False}
+
+
 def use_world(world):
     """Install `world` behind the seams and reset psutil's module state."""
     s = seams()
     s.set_world(world)
+    if ALT_SETTINGS["debug"]:
+        # PSUTIL_DEBUG=1 (documented): the debug() calls on the error paths really format and print their messages
+        s.psutil._common.PSUTIL_DEBUG = True
     return s
 
 
